@@ -372,5 +372,5 @@ int main(int argc, char** argv) {
 #else
   reg_mixed<TT_N>();
 #endif
-  return tracer_main(argc, argv, "Require Import TensorIndex C02Spec.\n");
+  return tracer_main(argc, argv, "Require Import TensorIndex TensorTactics C02Spec.\n");
 }
